@@ -29,7 +29,7 @@ OnCall(st, e) ==
       THEN Good([KInit(0) EXCEPT !.op = "bdl", !.ci = e.n, !.busy = TRUE,
                                  !.bd = [BdIdle EXCEPT !.ph = "init", !.idx = e.idx, !.sub = e.sub,
                                                        !.dlen = Len(e.data), !.size = e.size,
-                                                       !.crcReq = e.crc]])
+                                                       !.crcReq = e.crc, !.chk = e.sizecheck]])
       ELSE Good([KInit(0) EXCEPT !.op = "bul", !.ci = e.n, !.busy = TRUE,
                                  !.bu = [BuIdle EXCEPT !.ph = "init", !.idx = e.idx, !.sub = e.sub,
                                                        !.crcReq = e.crc]])
